@@ -118,9 +118,19 @@ def subject(case):
     res = {}
 
     doc = os.path.join(root, 'sand', 'doc_%s.xml' % (abs(hash((target, spell))) % 10 ** 8))
-    if mech == 'mapper':
+    if mech in ('mapper', 'mapper-dict'):
         with open(main, 'w') as f:
             f.write(main_schema('include', 'mapped.xsd', version))
+    elif mech == 'hint-inner':
+        # the location hint sits on a non-root element of an instance document loaded from a file of the sandbox
+        with open(main, 'w') as f:
+            f.write('<xs:schema xmlns:xs="http://www.w3.org/2001/XMLSchema" targetNamespace="urn:t">'
+                    '<xs:element name="root"><xs:complexType><xs:sequence><xs:element name="w" minOccurs="0"><xs:complexType><xs:sequence>'
+                    '<xs:any namespace="##other" processContents="lax" minOccurs="0"/></xs:sequence></xs:complexType></xs:element>'
+                    '</xs:sequence></xs:complexType></xs:element></xs:schema>')
+        with open(doc, 'w') as f:
+            f.write('<t:root xmlns:t="urn:t" xmlns:i="urn:i" xmlns:xsi="http://www.w3.org/2001/XMLSchema-instance">'
+                    '<w xsi:schemaLocation="urn:i %s"><i:x>v</i:x></w></t:root>' % location.replace('inc.xsd', 'imp.xsd'))
     elif mech == 'hint':
         with open(main, 'w') as f:
             f.write('<xs:schema xmlns:xs="http://www.w3.org/2001/XMLSchema" targetNamespace="urn:t">'
@@ -144,7 +154,14 @@ def subject(case):
                 schema = cls(src, allow=mode, base_url=os.path.join(root, 'sand'))
             elif mech == 'mapper':
                 schema = cls(main, allow=mode, uri_mapper=lambda u: location if u.endswith('mapped.xsd') else u)
-            elif mech == 'hint':
+            elif mech == 'mapper-dict':
+                from xmlschema.utils.urls import normalize_url
+                key = normalize_url('mapped.xsd', os.path.join(root, 'sand'))
+                value = location
+                if not (location.startswith(('file:', 'http')) or os.path.isabs(location)):
+                    value = 'file://' + os.path.join(root, 'sand', location)      # an absolute URL below the sandbox prefix
+                schema = cls(main, allow=mode, uri_mapper={key: value})
+            elif mech in ('hint', 'hint-inner'):
                 schema = cls(main, allow=mode)
                 try:
                     res['hint_errors'] = len(list(schema.iter_errors(doc, use_location_hints=True)))
@@ -255,7 +272,7 @@ def evaluate(ctx, cases):
                 problems.append("allow=%r but a %s location was opened (%s via %s spelled %r)"
                                 % (mode, a, c['target'], c['mech'], o.get('location', '').replace(o['root'], '/R')))
         # primary 2: declarations of a denied location are absent
-        if 'markers' in o and c['mech'] not in ('hint',):
+        if 'markers' in o and c['mech'] not in ('hint', 'hint-inner'):
             for mk in o['markers']:
                 if target_class(mk) not in ok:
                     problems.append("allow=%r but declarations of the %s file are in the schema" % (mode, mk))
@@ -308,7 +325,7 @@ def check_remote_base(ctx):
 def gen(ctx):
     cases = []
     modes = ['all', 'remote', 'local', 'sandbox', 'none']
-    mechs = ['main', 'include', 'import', 'redefine', 'override', 'hint', 'mapper']
+    mechs = ['main', 'include', 'import', 'redefine', 'override', 'hint', 'hint-inner', 'mapper', 'mapper-dict']
     spells = ['relative', 'dotted', 'absolute', 'file-url', 'detour', 'double-slash', 'encoded-dots', 'encoded-dots-2',
               'encoded-dots-3', 'abs-detour', 'file-url-detour']
     for mode in modes:
